@@ -168,7 +168,7 @@ def r15_3(run, model, mir):
                       "interface_hash == compute_hash(), format_version == FORMAT_VERSION and compiler_abi == COMPILER_ABI")
     sites = []
     for c in mir.calls:
-        if not c["file"].startswith("crates/compiler/src/") or "/tests/" in c["file"] or c["file"].endswith("main.rs"):
+        if not c["file"].startswith("crates/compiler/src/") or "/tests/" in c["file"]:
             continue
         if not re.search(r"serde_json::(de::)?from_(str|slice|reader|value)", c["callee"]):
             continue
